@@ -23,6 +23,7 @@ K3-permit   check_oauth2_authorise_permit: sinks under consent-token decryption 
             not expired, client lookup; the code copies challenge / uri / scopes from the consent token.
 K1          who may construct ConsentToken / TokenExchangeCode / Permitted / ConsentRequested / AuthorisePermitSuccess; who reads consent_key.
 K4-loopback check_is_loopback / host_is_local / OauthRSType::allow_localhost_redirect decision tables.
+ K5-client-fields / K4-client-cache-rebuilt  scope maps, claim map, origin lists come from their own attributes; reload rebuilds the set wholesale.
 Not decided: Url parsing/equality semantics, session validity of the identity (C32), consent UI.
 """
 import re
